@@ -1,12 +1,12 @@
 PROP = dict(
     id='C01', level='exploration',
-    pyvc=['contracts.c01'],
+    pyvc=['contracts.c01', ['contracts.c01b']],
     finite=[],
     bounded='bounded.c01',
     bounded_budget=dict(quick=45, thorough=420),
     assumptions=[],
     trusted_base=['z3 5.1 / cvc5 1.0.3', 'pyvc symbolic executor and its encoding of Python (DESIGN.md section 2.3)', 'CPython 3.12, PLY 3.11 (A-PLY)'],
-    manifest=dict(text='Deductive core (tier P, 38 obligations): serialize_value, _deserialize_value, deserialize_value and their round trip per type (lemmas), Link.cardinality, serialize_association. Bounded: round trip and one-round fixed point over generated schemas (<=3 classes x <=3 attributes, 6 relationship shapes, 16 cardinality pairs), the value alphabet of the property, 7 serialisation routes.',
+    manifest=dict(text='Deductive core (tier P, 46 obligations): serialize_value, _deserialize_value, deserialize_value and their round trip per type (lemmas), Link.cardinality, serialize_association, serialize_instance (every declared attribute in declared order, written with the value read under its declared name and its declared type). Bounded: round trip and one-round fixed point over generated schemas (<=3 classes x <=3 attributes, 6 relationship shapes, 16 cardinality pairs), the value alphabet of the property, 7 serialisation routes.',
                   note='PLY (A-PLY), float formatting (A-FLOAT); identifiers R<digits> and phrases with quotes are separate items (known findings).',
                   technique='bounded stand-in (run-time contracts on the real functions driven by small-scope enumeration; labelled bounded, never counted as proved) decides the property sentence; contract-based deductive verification: sidecar contracts on the real functions, verification conditions generated from the current source of /repo on every run by pyvc (Python AST -> z3/cvc5), every obligation discharged function by function for the listed kernel functions, reported separately as tier P'),
 )
